@@ -18,7 +18,7 @@ t("C01", "style-cache-survives-draws", TS, "\tt.curstyle = styleInvalid\n", "", 
 t("C01", "conditional-flush", TS, "\t_, _ = t.buf.WriteTo(t.tty)\n}", "\tif t.cursorx >= 0 {\n\t\t_, _ = t.buf.WriteTo(t.tty)\n\t}\n}", "single-flush")
 t("C01", "keep-column-after-wide", TS, "\tif width > 1 {\n\t\tt.cx = -1\n\t}\n\n\treturn width", "\treturn width", "drop-column-after-wide")
 t("C01", "no-redirty-of-hidden-column", TS, "\t\t\t\t\tt.cells.SetDirty(x+1, y, true)", "\t\t\t\t\t_ = y", "redirty-hidden-column")
-t("C01", "cursor-test-misses-right-edge", TS, "\tif x < 0 || y < 0 || x >= w || y >= h {\n\t\tt.hideCursor()", "\tif x < 0 || y < 0 || y >= h {\n\t\tt.hideCursor()", "on-screen-test")
+t("C01", "cursor-test-misses-right-edge", TS, "\tif x < 0 || y < 0 || x >= w || y >= h {\n\t\tt.hideCursor()", "\tif x < 0 || y < 0 || x > w || y >= h {\n\t\tt.hideCursor()", "on-screen-test")
 t("C01", "unmasked-palette-index", TS, "t.TPuts(ti.TParm(ti.SetFg, int(fg&0xff)))", "t.TPuts(ti.TParm(ti.SetFg, int(fg)))", "SetFg:arg1")
 t("C01", "sync-without-clear", TS, "\t\tt.resize()\n\t\tt.clear = true\n", "\t\tt.resize()\n", "clear-before-draw")
 t("C01", "clean-before-paint", TS, "\tt.writeString(str)\n\tt.cx += width\n\tt.cells.SetDirty(x, y, false)", "\tt.cx += width\n\tt.writeString(str)\n\tif x%2 == 0 {\n\t\tt.cells.SetDirty(x, y, false)\n\t}", "zzz-never")
@@ -34,7 +34,7 @@ t("C02", "focus-consumes-before-deciding", TS, "\t\tcase 1:\n\t\t\tif b[i] != '[
 t("C02", "function-key-complete-without-consuming", TS, "\t\t\tfor i := 0; i < len(esc); i++ {\n\t\t\t\t_, _ = buf.ReadByte()\n\t\t\t}\n\t\t\treturn true, true", "\t\t\treturn true, true", "parseFunctionKey:complete-consumes")
 
 # ---------------------------------------------------------------- C03
-t("C03", "f13-registered-from-f14", TS, "\tt.prepareKey(KeyF13, ti.KeyF13)", "\tt.prepareKey(KeyF13, ti.KeyF14)", "KeyF14:denotation")
+t("C03", "f13-registered-from-f14", TS, "\tt.prepareKey(KeyF13, ti.KeyF13)", "\tt.prepareKey(KeyF13, ti.KeyF14)", "assigned-key")
 t("C03", "ctrl-shift-becomes-ctrl-alt", TS, "t.prepareKeyModReplace(key, key+36, ModCtrl|ModShift, val+\";6~\")", "t.prepareKeyModReplace(key, key+36, ModCtrl|ModAlt, val+\";6~\")", "xterm-mod")
 t("C03", "registrar-overwrites", TS, "\t\tif _, exist := t.keycodes[val]; !exist {\n\t\t\tt.keyexist[key] = true", "\t\tif _, exist := t.keycodes[val]; !exist || len(val) > 0 {\n\t\t\tt.keyexist[key] = true", "prepareKeyMod")
 t("C03", "kclr-not-registered", TS, "\tt.prepareKey(KeyClear, ti.KeyClear)\n", "", "KeyClear:registered")
@@ -58,7 +58,7 @@ t("C05", "postevent-hides-full-queue", "screen.go", "\tdefault:\n\t\treturn ErrE
 t("C05", "second-main-loop", TS, "\tgo t.mainLoop(stopQ)\n\treturn nil", "\tgo t.mainLoop(stopQ)\n\tgo t.mainLoop(stopQ)\n\treturn nil", "each-loop-started-once")
 t("C05", "focus-event-without-time", "focus.go", "\tev := &EventFocus{EventTime: &EventTime{}, Focused: focused}\n\tev.SetEventNow()\n\treturn ev", "\treturn &EventFocus{Focused: focused}", "EventFocus")
 t("C05", "channel-events-never-closes", "screen.go", "\tdefer close(ch)\n", "", "defer-close")
-t("C05", "engage-restarts-loops-while-running", TS, "\tif t.running {\n\t\treturn errors.New(\"already engaged\")\n\t}\n", "", "start-guarded-by-running")
+t("C05", "engage-restarts-loops-while-running", TS, "\tif t.running {\n\t\treturn errors.New(\"already engaged\")\n\t}\n", "\tif t.running {\n\t\t_ = errors.New(\"already engaged\")\n\t}\n", "start-guarded-by-running")
 
 # ---------------------------------------------------------------- C06
 t("C06", "input-loop-bare-send", TS, "\t\t\tselect {\n\t\t\tcase t.keychan <- chunk[:n]:\n\t\t\tcase <-stopQ:\n\t\t\t\treturn\n\t\t\t}", "\t\t\tt.keychan <- chunk[:n]", "send@inputLoop")
@@ -89,7 +89,7 @@ t("C08", "combining-slice-aliased", CELL, "\t\tc.currComb = append([]rune{}, com
 t("C08", "lock-test-removed", CELL, "\t\tif c.lock {\n\t\t\treturn false\n\t\t}\n", "", "lock-first")
 t("C08", "off-by-one-column-bound", CELL, "\tif x >= 0 && y >= 0 && x < cb.w && y < cb.h {\n\t\tc := &cb.cells[(y*cb.w)+x]\n\t\tmainc, combc, style =", "\tif x >= 0 && y >= 0 && x <= cb.w && y < cb.h {\n\t\tc := &cb.cells[(y*cb.w)+x]\n\t\tmainc, combc, style =", "GetContent:cells")
 t("C08", "clean-forgets-combining", CELL, "\t\t\tc.lastComb = c.currComb\n", "", "SetDirty(false):copies:Comb")
-t("C08", "fill-width-one", CELL, "\t\tc.width = width\n", "\t\tc.width = 1\n", "Fill:currMain-store")
+t("C08", "fill-width-one", CELL, "\t\tc.width = width\n", "\t\t_ = width\n\t\tc.width = 1\n", "Fill:currMain-store")
 t("C08", "unlock-does-not-dirty", CELL, "\tc.lock = false\n\tcb.SetDirty(x, y, true)", "\tc.lock = false", "UnlockCell:force-dirty")
 t("C08", "background-none-not-merged", CELL, "\t\tif style.bg == ColorNone {\n\t\t\tstyle.bg = c.currStyle.bg\n\t\t}\n", "", "SetContent:ColorNone-merge:bg")
 t("C08", "width-changed-before-dirtying", CELL, "\t\tc.currComb = append([]rune{}, combc...)\n\n\t\tif c.currMain != mainc {\n\t\t\tc.width = runewidth.RuneWidth(mainc)\n\t\t}", "\t\tc.currComb = append([]rune{}, combc...)\n\n\t\tc.width = runewidth.RuneWidth(c.currMain)", "SetContent:currMain-store")
@@ -143,7 +143,7 @@ ANSI = "terminfo/a/ansi/term.go"
 t("C14", "entry-without-cup", ANSI, "\t\tSetCursor:    \"\\x1b[%i%p1%d;%p2%dH\",\n", "", "ansi:SetCursor")
 t("C14", "duplicate-alias", "terminfo/p/pcansi/term.go", "\t\tName:         \"pcansi\",", "\t\tName:         \"pcansi\",\n\t\tAliases:      []string{\"ansi\"},", "name:ansi:duplicate")
 t("C14", "unbalanced-conditional", ANSI, "\t\tSetBg:        \"\\x1b[4%p1%dm\",", "\t\tSetBg:        \"\\x1b[%?%p1%{8}%<%t4%p1%d%e10%p1%{8}%-%dm\",", "ansi:SetBg:well-formed")
-t("C14", "lookup-amends-shared-entry", TI, "\t\tnt := *t\n\t\tnt.Colors = 256", "\t\tnt := t\n\t\tnt.Colors = 256", "LookupTerminfo:store(Colors)")
+t("C14", "lookup-amends-shared-entry", TI, "\t\tnt := *t\n\t\tnt.Colors = 256", "\t\tnt := *t\n\t\tt.Colors = 256", "LookupTerminfo:store(Colors)")
 t("C14", "lookup-returns-other-error", TI, "\tif t == nil {\n\t\treturn nil, ErrTermNotFound\n\t}\n\n\tswitch os.Getenv(\"TCELL_TRUECOLOR\")", "\tif t == nil {\n\t\treturn nil, errors.New(\"unknown terminal\")\n\t}\n\n\tswitch os.Getenv(\"TCELL_TRUECOLOR\")", "failure-return")
 t("C14", "colour-count-without-strings", ANSI, "\t\tColors:       8,", "\t\tColors:       0,", "ansi:colors-consistent")
 t("C14", "registry-alias-outside-lock", TI, "\tterminfos[t.Name] = t\n\tfor _, x := range t.Aliases {\n\t\tterminfos[x] = t\n\t}\n\tdblock.Unlock()", "\tterminfos[t.Name] = t\n\tdblock.Unlock()\n\tfor _, x := range t.Aliases {\n\t\tterminfos[x] = t\n\t}", "AddTerminfo:write")
@@ -158,7 +158,7 @@ t("C15", "bright-fold-includes-seven", TI, "\t\tif fi > 7 && fi < 16 {", "\t\tif
 t("C15", "cup-without-increment", ANSI, "\t\tSetCursor:    \"\\x1b[%i%p1%d;%p2%dH\",", "\t\tSetCursor:    \"\\x1b[%p1%d;%p2%dH\",", "ansi:cup-convention")
 t("C15", "background-uses-foreground-sgr", ANSI, "\t\tSetBg:        \"\\x1b[4%p1%dm\",", "\t\tSetBg:        \"\\x1b[3%p1%dm\",", "ansi:SetBg")
 t("C15", "colour-range-off-by-one", TI, "\tif t.Colors > fi && fi >= 0 {", "\tif t.Colors >= fi && fi >= 0 {", "TColor:fi-in-range")
-t("C15", "padding-scan-does-not-advance", TI, "\t\ts = s[end+1:]", "\t\ts = s[end:]", "TPuts")
+t("C15", "padding-terminator-left-in-output", TI, "\t\ts = s[end+1:]", "\t\ts = s[end:]", "TPuts:skip-terminator")
 t("C15", "offset32-cup-swapped", "terminfo/v/vt52/term.go", "%p1%' '%+%c%p2%' '%+%c", "%p2%' '%+%c%p1%' '%+%c", "vt52:cup-convention")
 t("C15", "bright-colours-wrong-base-256", "terminfo/x/xterm/term.go", "\t\tName:         \"xterm-88color\",", "\t\tName:         \"xterm-88color\",\n\t\tStrikeThrough: \"\\x1b[9m\",", "zzz-benign")
 
@@ -200,7 +200,7 @@ t("C19", "clipboard-method-removed", WS, "func (t *wScreen) GetClipboard() {}", 
 t("C19", "palette-navy-typo", WS, "\tColorNavy:    0x0000ee,", "\tColorNavy:    0x0000ef,", "palette[4]")
 t("C19", "setsize-unlocked", WS, "func (t *wScreen) SetSize(w, h int) {\n\tt.Lock()\n\tif w == t.w && h == t.h {\n\t\tt.Unlock()\n\t\treturn\n\t}", "func (t *wScreen) SetSize(w, h int) {\n\tif w == t.w && h == t.h {\n\t\treturn\n\t}\n\tt.Lock()", "SetSize")
 t("C19", "draw-before-dirty-test", WS, "\tt.cells.SetDirty(x, y, false)\n\tjs.Global().Call(\"drawCell\"", "\tjs.Global().Call(\"drawCell\"", "clean-mark")
-t("C19", "motion-delivered-without-flag", WS, "\t\tif mouseFlags&MouseMotionEvents == 0 {\n\t\t\t// don't want this event! is a mouse motion event, but user has asked not.\n\t\t\treturn nil\n\t\t}\n", "", "motion-gate")
+t("C19", "motion-delivered-without-flag", WS, "\t\tif mouseFlags&MouseMotionEvents == 0 {\n\t\t\t// don't want this event! is a mouse motion event, but user has asked not.\n\t\t\treturn nil\n\t\t}\n", "\t\tif mouseFlags == 0 {\n\t\t\treturn nil\n\t\t}\n", "motion-gate")
 t("C19", "resize-event-posted-under-lock", WS, "\tt.w, t.h = w, h\n\tt.Unlock()\n\tt.postEvent(NewEventResize(w, h))", "\tt.w, t.h = w, h\n\tt.postEvent(NewEventResize(w, h))\n\tt.Unlock()", "post-while-locked")
 
 # ---------------------------------------------------------------- C20
